@@ -173,7 +173,13 @@ pub fn run(tier: Tier) -> i32 {
     let strs = strings();
     let cls = ctl_lists();
     let rcs: Vec<i64> = (0..=122).chain([4096, i32::MAX as i64]).collect();
-    let refs: Vec<Option<Vec<Vec<u8>>>> = vec![None, Some(vec![b"ldap://a/dc=x".to_vec()]), Some(vec![b"ldap://a/dc=x".to_vec(), "ldaps://b/o=é??sub".as_bytes().to_vec()])];
+    let refs: Vec<Option<Vec<Vec<u8>>>> = vec![
+        None,
+        Some(vec![b"ldap://a/dc=x".to_vec()]),
+        Some(vec![b"ldap://a/dc=x".to_vec(), "ldaps://b/o=é??sub".as_bytes().to_vec()]),
+        // the same URI twice in a row, once more after another one, and a non-ASCII host
+        Some(vec![b"ldap://a/dc=x".to_vec(), b"ldap://a/dc=x".to_vec(), "ldap://réf.example/".as_bytes().to_vec(), b"ldap://a/dc=x".to_vec()]),
+    ];
     let forms = [LenForm::Minimal, LenForm::Long(1), LenForm::Long(2), LenForm::Long(3), LenForm::Long(4)];
 
     // product 1: type x rc x (strings, referral, controls rotating)
@@ -380,10 +386,13 @@ pub fn run(tier: Tier) -> i32 {
         }
     }
 
+    // responses longer than 127 octets through the real Framed and driver, every cut position
+    let t_long = crate::e1::explore_all(&rep, vec![crate::e1::scenarios::long_response_bytes("C03")], false);
+    let lane_b = lane_b + t_long.transitions;
     let c = cov(vec![
         ("evaluations", json!(lane_a + lane_b)),
         ("distinct_nontrivial", json!(distinct.load(Ordering::Relaxed))),
-        ("rule", json!("lane a: every response type x every rc in 0..=122 plus 4096 and 2^31-1 (other fields rotating), and every response type x matched x text x referral x control list (0-2 controls: known/unknown OID x criticality absent/FALSE/TRUE x value absent/empty/bytes); each message encoded minimally, with every single length field in each of the forms 81/82/83/84, with all fields in each form, and (small messages) with every combination; decoded by the crate's codec and result converter; helpers for every rc in 0..=255. lane b: every single-result operation kind (also with an ExtendedResponse value / serverSaslCreds that are not UTF-8, and two result controls) and search completion through a pending real operation over the in-memory transport. distinct_nontrivial = distinct response messages (not counting re-encodings)")),
+        ("rule", json!("lane a: every response type x every rc in 0..=122 plus 4096 and 2^31-1 (other fields rotating), and every response type x matched x text x referral x control list (0-2 controls: known/unknown OID x criticality absent/FALSE/TRUE x value absent/empty/bytes); each message encoded minimally, with every single length field in each of the forms 81/82/83/84, with all fields in each form, and (small messages) with every combination; decoded by the crate's codec and result converter; helpers for every rc in 0..=255. lane b (the last scenario as an explicit-state search over byte-level delivery of two responses of 150 and 340 octets): every single-result operation kind (also with an ExtendedResponse value / serverSaslCreds that are not UTF-8, and two result controls) and search completion through a pending real operation over the in-memory transport. distinct_nontrivial = distinct response messages (not counting re-encodings)")),
         ("lane_a_decodes", json!(lane_a)),
         ("lane_b_operations_through_driver", json!(lane_b)),
         ("samples", json!([ber::hex(&mk_case(24, 10, 2, 1, 2, 5, 7).msg.encode())])),
